@@ -256,7 +256,11 @@ impl L2Entry {
                 let compressed_offset_bits = 62 - (cluster_bits - 8);
                 let offset = value.cluster_offset.unwrap();
                 let length = value.compressed_length.unwrap();
-                assert!(length < 1 << cluster_bits);
+                // `length` is the upper bound derived from the sector count
+                // (see compressed_range()), which reaches or exceeds the
+                // cluster size for a poorly compressible cluster that starts
+                // near a sector boundary; what has to fit is the sector count
+                assert!(length > 0 && (length - 1 + (offset & 511) as usize) / 512 < 1 << (cluster_bits - 8));
 
                 // The first sector is not considered, so we subtract the number of bytes in it
                 // that belong to this compressed cluster from `length`:
